@@ -112,6 +112,52 @@ func reportE1(P *Program, r *Result, run *e1Run, keep func(o *e1Obl) (rule strin
 		}
 		r.add(rule, shortName(o.Fn), strings.ToLower(o.Kind), o.What, P.pos(instrPos(o.In)), o.OK, o.Detail)
 	}
+	entryTotalRule(P, r, run, keep)
+}
+
+// unchecked helpers of the public API: their contract *is* a precondition (an offset inside the slice, a minimum length);
+// every caller inside the repository is held to it (PRE obligations). Everything else that is exported is an entry
+// point that must cope with any input.
+var uncheckedByContract = map[string]string{
+	"Bytes2Uint8":         "offset must be ≥ 0 (callers pass a running cursor)",
+	"Bytes2Uint16":        "offset must be ≥ 0 (callers pass a running cursor)",
+	"ReadString2BLen":     "offset must be ≥ 0 (callers pass a running cursor)",
+	"Bytes2Uint16NoCheck": "documented as unchecked",
+	"Bytes2Uint32NoCheck": "documented as unchecked",
+	"IsTTHeader":          "needs the 8 bytes up to the magic word; Decode hands it the 14-byte meta block",
+}
+
+// entryTotalRule: the contract inference may give any function a precondition; inside the repository the callers are
+// then held to it. For an exported function nobody is: a precondition on an entry point would silently narrow "for every
+// input" — so an exported function in the scope of the run must not need one (the helpers above excepted).
+func entryTotalRule(P *Program, r *Result, run *e1Run, keep func(o *e1Obl) (rule string, ok bool)) {
+	rule, _ := keep(&e1Obl{Kind: "PRE"})
+	if rule == "" {
+		rule = "PRE"
+	}
+	for _, fn := range run.scope {
+		if !isExported(fn) || uncheckedByContract[fn.Name()] != "" {
+			continue
+		}
+		ct := run.cs.cts[fn]
+		if ct == nil {
+			continue
+		}
+		for _, p := range ct.Pres {
+			if !p.Adopted {
+				continue
+			}
+			// a non-nil receiver / argument object is the caller's business; lengths, offsets and counts are input
+			if p.Kind == "nonnil" {
+				continue
+			}
+			// a bound on a plain integer parameter matters when it can be an offset into input bytes
+			if !strings.Contains(p.Kind, "len") && firstByteParam(fn) < 0 {
+				continue
+			}
+			r.add(rule, shortName(fn), "entry", "an exported entry point copes with every input (no precondition on lengths or offsets)", P.pos(fn.Pos()), false, "the proofs inside "+fn.Name()+" need: "+p.String(fn))
+		}
+	}
 }
 
 func checkC03(P *Program, r *Result, tier string) {
